@@ -550,7 +550,7 @@ func ruleNHGReferences(c *Ctx) {
 				continue
 			}
 			se, _ := ast.Unparen(call.Fun).(*ast.SelectorExpr)
-			onHolder := se != nil && objOfIdent(info, se.X) == holder
+			onHolder := se != nil && frameArgRoot(info, fi.Decl, objOfIdent(info, se.X)) == holder
 			lp, inLoop := callLoop[call]
 			ao, ap := selectorPath(info, resolveLocal(info, fi.Decl, call.Args[0]))
 			argIsMember := inLoop && ((lp.val != nil && ao == lp.val && strings.Join(ap, ".") == "Index") || (lp.key != nil && ao == lp.key && len(ap) == 0))
@@ -762,6 +762,7 @@ func ruleDeleteRefs(c *Ctx) {
 	}
 	bad := map[string]string{}
 	seen := map[string]int{}
+	nRemoved, nOrigPresent := map[string]int{}, map[string]int{}
 	for _, p := range paths {
 		var k *Kind
 		for _, e := range p.Events {
@@ -789,6 +790,12 @@ func ruleDeleteRefs(c *Ctx) {
 		removed := r.removed != nil && r.err != nil && f.Obj(r.removed) == +1 && f.Obj(r.err) == -1
 		origNonNil := r.orig != nil && f.Obj(r.orig) == +1
 		origNil := r.orig == nil || f.Obj(r.orig) == -1
+		if removed {
+			nRemoved[k.Table]++
+			if origNonNil {
+				nOrigPresent[k.Table]++
+			}
+		}
 		want := ""
 		switch {
 		case !removed:
@@ -834,6 +841,11 @@ func ruleDeleteRefs(c *Ctx) {
 		if seen[k.Table] == 0 {
 			c.vanished(rule, fi.Name, "arm "+k.Table, "no path deletes a "+k.Table)
 			continue
+		}
+		// the entry that DeleteXXX hands back must be looked at on some path that removed something: when it goes
+		// into a variable nobody tests, no path is known to hold a removed entry and nothing above was compared
+		if (k.TopLevel || k.Table == "NextHopGroup") && bad[k.Table] == "" && nRemoved[k.Table] > 0 && nOrigPresent[k.Table] == 0 {
+			bad[k.Table] = fmt.Sprintf("no path that removed a %s knows the removed entry to be present (the value returned by %s is not the one tested): its references are never released", k.Table, k.Delete.Obj.Name())
 		}
 		okd := "releases the removed entry's group in the referenced instance, only when something was removed"
 		if k.Table == "NextHopGroup" {
@@ -1163,7 +1175,25 @@ func ruleCounterPrimitives(c *Ctx) {
 			if !ok || frameArgRoot(info, fi.Decl, objOfIdent(info, ie.Index)) != p0 {
 				return false
 			}
-			se, ok := ast.Unparen(ie.X).(*ast.SelectorExpr)
+			// (a map handed to a spliced-in helper as a parameter stands for the argument)
+			x := ast.Unparen(ie.X)
+			for hops := 0; hops < 3; hops++ {
+				id, isID := x.(*ast.Ident)
+				if !isID {
+					break
+				}
+				var arg ast.Expr
+				for _, fr := range framesIn(fi.Decl) {
+					if a, ok := fr.Binds[info.ObjectOf(id)]; ok {
+						arg = a
+					}
+				}
+				if arg == nil {
+					break
+				}
+				x = ast.Unparen(arg)
+			}
+			se, ok := x.(*ast.SelectorExpr)
 			return ok && se.Sel.Name == t.fld
 		}
 		// an assignment that only defines locals (e.g. the parameter bindings of a spliced-in helper) changes no counter
